@@ -14,6 +14,8 @@ import (
 	"sort"
 	"strings"
 	"time"
+
+	"github.com/evolbioinfo/goalign/verifrt/vrt"
 )
 
 // Task is one independently runnable slice of a property's input space.
@@ -205,50 +207,67 @@ func (c *Ctx) Mark(replay any) {
 	c.mark.Truncate(int64(len(b)))
 }
 
-// Guard runs f and converts a panic into (true, message, stack).
+// Guard runs f and converts a panic into (true, message).  The message ends
+// with " @<function> <file:line>" of the innermost goalign frame.
 func Guard(f func()) (panicked bool, msg string) {
+	p, m, _ := GuardExit(f)
+	return p, m
+}
+
+// GuardExit is Guard that additionally recognises the sentinel raised by the
+// instrumented os.Exit (io.ExitWithMessage inside library code): exited=true
+// means "the library reported an explicit error and asked to exit".
+func GuardExit(f func()) (panicked bool, msg string, exited bool) {
 	defer func() {
 		if r := recover(); r != nil {
-			panicked = true
-			msg = fmt.Sprint(r)
-			st := string(debug.Stack())
-			// keep the first goalign frame for the signature
-			for _, l := range strings.Split(st, "\n") {
-				if strings.Contains(l, "/goalign/") || strings.Contains(l, "/repo/") {
-					l = strings.TrimSpace(l)
-					if i := strings.Index(l, " +0x"); i > 0 {
-						l = l[:i]
-					}
-					if strings.Contains(l, ".go:") && !strings.Contains(l, "verifrt") {
-						msg += " @" + shortPath(l)
-						break
-					}
-				}
+			if _, ok := r.(vrt.ExitPanic); ok {
+				exited = true
+				return
 			}
+			panicked = true
+			msg = fmt.Sprint(r) + " @" + repoFrame(string(debug.Stack()))
 		}
 	}()
 	f()
 	return
 }
 
-func shortPath(l string) string {
-	for _, m := range []string{"/goalign/", "/repo/"} {
-		if i := strings.LastIndex(l, m); i >= 0 {
-			return l[i+len(m):]
+// repoFrame extracts "<func> <file:line>" of the innermost goalign frame of a stack dump.
+func repoFrame(st string) string {
+	lines := strings.Split(st, "\n")
+	for i := 0; i+1 < len(lines); i++ {
+		l := lines[i]
+		if strings.HasPrefix(l, "\t") || !strings.Contains(l, "evolbioinfo/goalign/") || strings.Contains(l, "verifrt") {
+			continue
 		}
+		fn := l
+		if j := strings.LastIndex(fn, "("); j > 0 {
+			fn = fn[:j]
+		}
+		if j := strings.LastIndex(fn, "/"); j >= 0 {
+			fn = fn[j+1:]
+		}
+		loc := strings.TrimSpace(lines[i+1])
+		if j := strings.Index(loc, " +0x"); j > 0 {
+			loc = loc[:j]
+		}
+		if j := strings.LastIndex(loc, "/"); j >= 0 {
+			loc = loc[j+1:]
+		}
+		return fn + " " + loc
 	}
-	return l
+	return "? ?"
 }
 
-// PanicSite strips the line number from a Guard message so that signatures do
-// not change when unrelated lines move.
+// PanicSite returns the function in which a Guard-ed panic was raised (no line
+// number, so that signatures survive unrelated edits).
 func PanicSite(msg string) string {
 	i := strings.LastIndex(msg, " @")
 	if i < 0 {
 		return "?"
 	}
 	s := msg[i+2:]
-	if j := strings.LastIndex(s, ":"); j > 0 {
+	if j := strings.Index(s, " "); j > 0 {
 		s = s[:j]
 	}
 	return s
